@@ -28,7 +28,7 @@ Universe(tier) ==
   { [t |-> t, rplace |-> rp, pos |-> p, via |-> v, own |-> o, second |-> NoSecond] :
       t \in Targets(tier), rp \in RPlaces, p \in Positions, v \in {"def", "reexp"}, o \in BOOLEAN }
   \cup { [t |-> t, rplace |-> "root", pos |-> p, via |-> "def", own |-> FALSE, second |-> s2] :
-      t \in { t \in Targets(tier) : t.reexp.form \in {"none", "name"} /\ t.stem = "pubmod" }, p \in {"param", "super"}, s2 \in Seconds }
+      t \in { t \in Targets(tier) : t.reexp.form \in {"none", "name", "module"} /\ t.stem = "pubmod" }, p \in {"param", "super"}, s2 \in Seconds }
 Legal(u) ==
   /\ (u.via = "reexp" => u.t.reexp.form \in {"name", "alias"} /\ ~Pk!PrivateName(Pk!ExposedName(u.t)))
   /\ (u.own => u.pos = "param" /\ u.rplace = "root" /\ u.via = "def")
